@@ -116,6 +116,16 @@ func init() {
 		lo, hi := int(args[1].(*Term).iv.Int64()), int(args[2].(*Term).iv.Int64())
 		return m.in.I64(int64(m.concretize(args[0].(*Term), lo, hi, "ConcreteInt")))
 	})
+	// Trace(label, v): debugging aid, records the rendered value as a cover point
+	reg(symPkg+"Trace", func(m *Machine, fn *ssa.Function, args []Value) Value {
+		t := m.formatValue(args[1])
+		txt := m.in.Show(t)
+		if len(txt) > 160 {
+			txt = txt[:160]
+		}
+		m.res.Covers = append(m.res.Covers, "trace:"+m.constStr(args[0], "label")+":"+txt)
+		return nil
+	})
 	reg(symPkg+"Symbolic", func(m *Machine, fn *ssa.Function, args []Value) Value {
 		return m.in.Bool(true)
 	})
@@ -285,7 +295,7 @@ func init() {
 	})
 	// ExactMul(on): use exact nonlinear multiplication instead of the axiomatised uninterpreted product
 	reg(symPkg+"ExactMul", func(m *Machine, fn *ssa.Function, args []Value) Value {
-		m.in.nlUF = !args[0].(*Term).bv
+		m.in.nlUF = !args[0].(*Term).bv && !m.forceExact
 		return nil
 	})
 	reg(symPkg+"FixField", func(m *Machine, fn *ssa.Function, args []Value) Value {
@@ -444,7 +454,7 @@ func (m *Machine) checkViolation(label, kind string, extra []*Term, kfs []string
 		m.res.Incon = append(m.res.Incon, "unknown-assert:"+label)
 		return
 	}
-	v := &Violation{Label: label, Kind: kind, Site: m.repoSite(), Model: model, Trace: append([]int{}, m.trace...), KFs: kfs, Outside: outside}
+	v := &Violation{Label: label, Kind: kind, Site: m.repoSite(), Model: model, Trace: append([]int{}, m.trace...), KFs: kfs, Outside: outside, usedNL: m.usesNL()}
 	v.Case = m.buildCase(label, model)
 	m.res.Violations = append(m.res.Violations, v)
 }
@@ -463,7 +473,7 @@ func (m *Machine) onUncaughtPanic(x *goPanic) {
 		}
 		return
 	}
-	v := &Violation{Label: label, Kind: "panic", Site: site, Model: model, Trace: append([]int{}, m.trace...), Detail: x.kind + ": " + m.panicText(x), KFs: classes, Outside: len(classes) == 0}
+	v := &Violation{usedNL: m.usesNL(), Label: label, Kind: "panic", Site: site, Model: model, Trace: append([]int{}, m.trace...), Detail: x.kind + ": " + m.panicText(x), KFs: classes, Outside: len(classes) == 0}
 	v.Case = m.buildCase(label, model)
 	m.res.Violations = append(m.res.Violations, v)
 }
@@ -478,7 +488,7 @@ func (m *Machine) onUnwind(fr *Frame) {
 	if r != Sat {
 		return
 	}
-	v := &Violation{Label: "terminates", Kind: "unwind", Site: site, Model: model, Trace: append([]int{}, m.trace...), Detail: "loop exceeded unwinding bound in " + fr.fn.String(), KFs: classes, Outside: len(classes) == 0}
+	v := &Violation{usedNL: m.usesNL(), Label: "terminates", Kind: "unwind", Site: site, Model: model, Trace: append([]int{}, m.trace...), Detail: "loop exceeded unwinding bound in " + fr.fn.String(), KFs: classes, Outside: len(classes) == 0}
 	v.Case = m.buildCase("terminates", model)
 	m.res.Violations = append(m.res.Violations, v)
 }
@@ -499,3 +509,33 @@ func (m *Machine) mkTime(unix *Term) Value {
 }
 
 func fmtSite(s string) string { return fmt.Sprint(s) }
+
+// usesNL: the path condition mentions an abstracted product / quotient.
+func (m *Machine) usesNL() bool {
+	if !m.in.nlUF {
+		return false
+	}
+	seen := map[int]bool{}
+	var walk func(t *Term) bool
+	walk = func(t *Term) bool {
+		if seen[t.id] {
+			return false
+		}
+		seen[t.id] = true
+		if t.op == "uf" && (t.name == "nlmul" || t.name == "nldiv" || t.name == "nlmod") {
+			return true
+		}
+		for _, a := range t.args {
+			if walk(a) {
+				return true
+			}
+		}
+		return false
+	}
+	for _, c := range m.pc {
+		if walk(c) {
+			return true
+		}
+	}
+	return false
+}
